@@ -157,6 +157,18 @@ def tools_check(d, hexpath, inp, h):
     j = json.load(open(auth))
     if j["signer"] != {"hash": h.hex(), "iteration": it}:
         return "authorization file does not carry the image hash / iteration: %r" % j["signer"]
+    # an output file left over from ANOTHER image must not leak into this image's authorization
+    other = os.path.join(d, "other.hex")
+    with open(other, "w") as f:
+        f.write(":020000040000FA\n:0400100001020304E2\n:00000001FF\n")
+    reused = os.path.join(d, "reused.json")
+    code, out = _run_main(signapp, ["signapp.py", "message", "-a", other, "-i", str((it + 1) % 65536), "-o", reused])
+    if code != 0:
+        return "signapp message (other image) failed"
+    code, out = _run_main(signapp, ["signapp.py", "message", "-a", hexpath, "-i", str(it), "-o", reused])
+    j2 = json.load(open(reused)) if code == 0 else None
+    if code != 0 or j2["signer"] != {"hash": h.hex(), "iteration": it} or j2["signatures"] != []:
+        return "authorization written over an existing file does not bind to the image given: %r" % (j2 and j2["signer"],)
     key = inp["key"]
     code, out = _run_main(signapp, ["signapp.py", "key", "-k", key, "-o", auth])
     if code != 0:
